@@ -127,6 +127,19 @@ def lines_for(tree, rng):
                 if o.get("shadows"):
                     out.append((names + ["--" + o["long"]] + fill, "path+option-named-like-subcommand-" + tag))
                     out.append((names + fill + ["--" + o["long"]], "path+args+option-named-like-subcommand-" + tag))
+                    # ... as the second of two options, and after the '--' separator
+                    other = next((x for x in n["opts"] if x is not o and x["mode"] == "flag"), None)
+                    if other is not None:
+                        out.append((names + ["--" + other["long"], "--" + o["long"]] + fill, "path+two-options-second-named-like-subcommand-" + tag))
+                    out.append((names + ["--unknownopt", "--" + o["long"]], "path+unknown-option+option-named-like-subcommand-" + tag))
+                    out.append((names + fill + ["--", "--" + o["long"]], "path+dd+option-named-like-subcommand-" + tag))
+            if not use_alias:
+                # options in front of the path: there are no leading tokens, whatever follows
+                out.append((["-x"] + names + fill, "option-before-path"))
+                out.append((["--zz=1"] + names, "long-option-before-path"))
+                if n["opts"]:
+                    o = n["opts"][0]
+                    out.append((["--" + o["long"]] + names + fill, "own-option-before-path"))
             if len(p) >= 2:
                 # an option of an ancestor, in '--name=value' / '--flag' form, before the last path component:
                 # the walk stops there, the rest of the path are plain arguments of the ancestor
@@ -246,6 +259,31 @@ def judge_line(sh, env, app, log, tree, toks, rec):
 KINDS = ["plain", "default", "anon", "hidden", "disabled"]
 
 
+def similar_names_tree():
+    """Command names and aliases that are near one another, and first tokens that are near them without being one:
+    the undefined-command report looks for similar names."""
+    def leaf(name, aliases=(), kind="plain"):
+        return dict(name=name, aliases=list(aliases), kind=kind, desc="d", help=None, subs=[], opts=[],
+                    args=[dict(name=name + "rest", kind="opt", multi=True, desc="d", default=None)])
+
+    tree = [leaf("start"), leaf("stop"), leaf("stats", ["st"]), leaf("status", ["stat-us"]), leaf("restart", ["rs"], "hidden"), leaf("star", [], "disabled")]
+    taken = set()
+    for n in tree:
+        if n["kind"] != "disabled":
+            taken.update([n["name"]] + n["aliases"])
+    toks = set()
+    for w in sorted(taken) + ["star"]:
+        for i in range(len(w) + 1):
+            toks.add(w[:i] + "x" + w[i:])  # insertion
+            if i < len(w):
+                toks.add(w[:i] + w[i + 1:])  # deletion
+                toks.add(w[:i] + "z" + w[i + 1:])  # substitution
+            for j in range(i + 2, len(w) + 1):
+                toks.add(w[i:j])  # substring
+    toks = sorted(t for t in toks if t and t not in taken and not t.startswith("-"))
+    return tree, toks
+
+
 def small_trees():
     """All trees of 1-3 top-level leaf commands over the kind set, the first plain
     command carrying one sub-command of each kind in turn."""
@@ -292,8 +330,18 @@ def run(sh, spec):
             if i < 1:
                 sh.sample({"tree": tree, "lines": [l for l, _ in lines_for(tree, rng)][:6]})
     else:
-        st = small_trees()
         i, n = spec["slice"]
+        if i == 0:
+            tree, toks = similar_names_tree()
+            log = T.HandlerLog()
+            app, cfg = T.build_app(tree, env.api, log, io_factory=env.io_factory)
+            for t in toks:
+                for line in ([t], [t, "start"], [t, "--", "stop"]):
+                    judge_line(sh, env, app, log, tree, line, {"tree": "similar-names", "tokens": line})
+                    sh.case(("similar", tuple(line)), True)
+                    sh.count("near_miss_lines")
+            sh.tag("line_shapes", "near-miss-first-token")
+        st = small_trees()
         for tree in st[i::n]:
             judge_tree(sh, env, tree, rng)
             sh.count("trees")
